@@ -21,8 +21,9 @@ import (
 	"gopkg.in/yaml.v3"
 )
 
-// c18Zones returns every IANA zone found on the host (sorted), or a fixed
-// list if the directory cannot be walked.
+// c18Zones returns every IANA zone found on the host (sorted; the Etc/
+// directory with its GMT+N / GMT-N names included), or a fixed list if the
+// directory cannot be walked.
 func c18Zones() (zones []string) {
 	root := "/usr/share/zoneinfo"
 	_ = filepath.WalkDir(root, func(p string, d fs.DirEntry, err error) error {
@@ -31,7 +32,7 @@ func c18Zones() (zones []string) {
 		}
 		rel, _ := filepath.Rel(root, p)
 		if strings.HasPrefix(rel, "posix") || strings.HasPrefix(rel, "right") ||
-			strings.Contains(rel, ".") || strings.HasPrefix(rel, "Etc/") {
+			strings.Contains(rel, ".") {
 			return nil
 		}
 		if c := rel[0]; c < 'A' || c > 'Z' {
@@ -526,6 +527,9 @@ func TestVerifC18(t *testing.T) {
 		}
 	}
 	c18TextCases(out, rnd)
+
+	// --- whole documents, "time_zone" included, in every zone of the host ---
+	c18ZoneDocs(out, rnd, zones)
 	_ = os.Stdout
 }
 
